@@ -205,22 +205,34 @@ def run(ctx):
         strat = ctx.rng.random() < 0.6
         grp = [ctx.rng.choice(["T", "C"]) for _ in range(n)]; grp[0], grp[1] = "T", "C"
         cov = [[ctx.rng.choice([1, 2, 2]), ctx.rng.randint(0, 4)] for _ in range(n)]
+        if strat and ctx.rng.random() < 0.5:      # strata with different label compositions (one all "T", one mixed)
+            grp = ["T" if c_[0] == 1 else ctx.rng.choice(["T", "C", "C"]) for c_ in cov]
         resp = [[float(ctx.rng.randint(0, 9)), float(ctx.rng.randint(0, 9))] for _ in range(n)]
         e = npc.Experiment(grp, resp, cov, npc.Experiment.Randomizer(randomize=(npc.randomize_in_strata if strat else npc.randomize_group), seed=ctx.rng.randint(0, 10**6)))
+        no_ = ctx.rng.choice([False, False, np.False_, 0, np.int64(n) > 100]); ctx.count("in_place-given-as-" + type(no_).__name__)
         tests = npc.Experiment.make_test_array(npc.Experiment.TestFunc.one_way_anova, [0, 1])
         before = (e.group.tobytes() if e.group.dtype != object else repr(e.group.tolist()), repr(e.response.tolist()), repr(e.covariate.tolist()))
         which = ctx.rng.choice(["randomize", "sim_npc", "westfall_young-minP", "westfall_young-maxT"])
         sd = ctx.rng.choice([None, ctx.rng.randint(0, 10**6)])
         if which == "randomize":
-            r = guarded(e.randomize, False, sd)
+            r = guarded(e.randomize, no_, sd)
+            if r[0] == "ok":      # the returned copy: same data, labels rearranged admissibly (within strata for the stratified randomizer)
+                c_ = r[1]; cg = list(getattr(c_, "group", [])); st_ = [v[0] for v in cov]
+                okc = isinstance(c_, npc.Experiment) and c_ is not e and np.array(c_.response).tolist() == np.array(e.response).tolist() and \
+                    np.array(c_.covariate).tolist() == np.array(e.covariate).tolist() and len(cg) == n and \
+                    (Counter(cg) == Counter(grp) if not strat else all(Counter(g_ for g_, s_ in zip(cg, st_) if s_ == s0) == Counter(g_ for g_, s_ in zip(grp, st_) if s_ == s0) for s0 in set(st_)))
+                if not okc:
+                    ctx.violation("oracle", {"call": "Experiment.randomize", "in_place": repr(no_), "stratified_randomizer": strat, "group": grp, "strata": st_, "seed": sd,
+                                             "issue": "the randomisation returned by randomize(in_place=False) is not an admissible rearrangement of the labels (within strata) on a copy of the data",
+                                             "returned_group": [str(v) for v in cg]}, site="Experiment")
         elif which == "sim_npc":
-            r = guarded(npc.sim_npc, e, tests, "tippett", False, ctx.rng.randint(1, 4), sd)
+            r = guarded(npc.sim_npc, e, tests, "tippett", no_, ctx.rng.randint(1, 4), sd)
         else:
-            r = guarded(npc.westfall_young, e, tests, which.split("-")[1], "greater", False, ctx.rng.randint(1, 4), sd)
+            r = guarded(npc.westfall_young, e, tests, which.split("-")[1], "greater", no_, ctx.rng.randint(1, 4), sd)
         after = (e.group.tobytes() if e.group.dtype != object else repr(e.group.tolist()), repr(e.response.tolist()), repr(e.covariate.tolist()))
         ctx.case(("exp-copy", which, strat, tuple(grp), sd), True); ctx.count("experiment-in_place=False-" + which + ("-stratified" if strat else ""))
         if r[0] != "ok" or before != after:
-            ctx.violation("oracle", {"call": which, "in_place": False, "stratified_randomizer": strat, "group": grp, "strata": [c_[0] for c_ in cov], "seed": sd,
+            ctx.violation("oracle", {"call": which, "in_place": repr(no_), "stratified_randomizer": strat, "group": grp, "strata": [c_[0] for c_ in cov], "seed": sd,
                                      "issue": "an Experiment passed with in_place=False was modified (or the call failed)", "returned": str(r)[:200],
                                      "group_after": e.group.tolist()}, site="Experiment")
     # permute_incidence_fixed_sums must not touch the caller's matrix, whatever its dtype / memory layout
